@@ -87,6 +87,16 @@ PROPS = {
         "rule": "one case = one recurrence with ~5 probes per member x 5 query kinds; all cases non-trivial",
         "assumptions": TRUST,
     },
+    "C14": {
+        "technique": "TLA+ spec (Conform.tla ShiftClause / RecEqClause / RecTextClause over Ops.tla) + TLC trace validation",
+        "level_text": "Shifts in all three operand forms are judged against the series recorded from the unshifted recurrence (same n and "
+                      "interval, anchors moved by d, every point moved by exactly d for exact intervals, (r+d)-d == r); pairs of recurrences "
+                      "differing in exactly one component / respelled / rebuilt are judged for ==, != , hash and identical iteration; "
+                      "parse(str(r)) must equal r with the same points.",
+        "drivers": ["c14"], "mc": [], "expect_ops": ["Shift", "RecEq", "RecText"],
+        "rule": "one case = one shift, one pair, or one text round trip; all non-trivial (single-point recurrences of every notation included)",
+        "assumptions": TRUST,
+    },
     "C03": {
         "technique": "TLA+ calendar definition (Cal.tla) model-checked with TLC (+ Apalache lemmas) and TLC trace validation of every conversion row of the real helpers",
         "level_text": "Cal.tla is the proleptic definition; TLC checks it is self-consistent (inverse pairs, week rule, lengths) on every day "
